@@ -14,6 +14,12 @@ needed: they are facts about single sections).
   (`C13_cancelled_task_ends_silently`); it cannot un-mark another task (`C13_marks_are_stable`);
 * cancelling the caller surfaces as `CancelledError` and nothing else (`C13_caller_sees_cancelled_only`).
 Hence after the end every remaining task finishes in exactly one more section each.
+
+Global form (end of the file, all programs): `C13_after_cleanup_others_marked` (the state `manager.run` leaves behind has
+every other task finished or cancel-marked), `C13_after_cleanup_nothing_starts` (from such a state every step of anybody
+but the caller creates no task and reports only endings — also while `on_pipeline_complete` is still suspended),
+`C13_after_return_nothing_ever_starts` (once the caller's task has ended as well, this holds for every continuation of
+any length).
 Not carried by the model: a body already running in a real thread / process cannot be interrupted.
 -/
 namespace MLPE.Eng
@@ -154,5 +160,253 @@ example :
     let tk : Task := { frames := [.dagWaitDest ⟨0, some 1, [0, 1], false, false, false⟩], st := .blocked (.cond (.node 1)) }
     (cancelled tk).marked = true ∧ (cancelled tk).st = .runnable .go := by
   decide
+
+/-! ### After the end, globally (all programs, all continuations) -/
+
+/-- every task of the run with an index in `I` is finished or has its cancellation requested -/
+def MarkedOn (I : Nat → Prop) (s : St) : Prop := ∀ (i : Nat) (tk : Task), I i → s.tasks[i]? = some tk → tk.marked = true
+
+/-- every task of the run is finished or has its cancellation requested -/
+def AllMarked (s : St) : Prop := MarkedOn (fun _ => True) s
+
+/-- observations that only report an ending -/
+def Obs.isEnding : Obs → Bool
+  | .done .. => true
+  | .returned .. => true
+  | _ => false
+
+theorem allMarked_of_map {I : Nat → Prop} {s s' : St} (h : MarkedOn I s)
+    (hm : ∀ i : Nat, (s'.tasks[i]?).map Task.marked = (s.tasks[i]?).map Task.marked) : MarkedOn I s' := by
+  intro i tk hI hi
+  have := hm i
+  rw [hi] at this
+  cases hs : s.tasks[i]? with
+  | none => simp [hs] at this
+  | some tk0 =>
+    simp only [hs, Option.map_some, Option.some.injEq] at this
+    rw [this]; exact h i tk0 hI hs
+
+theorem allMarked_setTask_marked {I : Nat → Prop} {s : St} (h : MarkedOn I s) (t : Nat) (tk' : Task)
+    (hm : tk'.marked = true) : MarkedOn I (s.setTask t tk') := by
+  intro i tk hI hi
+  by_cases hit : i = t
+  · subst hit
+    simp only [St.setTask] at hi
+    by_cases hlt : i < s.tasks.length
+    · rw [List.getElem?_set_self hlt] at hi; cases hi; exact hm
+    · rw [List.getElem?_eq_none (by simp; omega)] at hi; cases hi
+  · rw [getElem?_setTask_ne _ _ _ _ hit] at hi
+    exact h i tk hI hi
+
+theorem markedOn_setTask_outside {I : Nat → Prop} {s : St} (h : MarkedOn I s) (t : Nat) (tk' : Task) (ht : ¬ I t) :
+    MarkedOn I (s.setTask t tk') := by
+  intro i tk hI hi
+  have hit : i ≠ t := fun e => ht (e ▸ hI)
+  rw [getElem?_setTask_ne _ _ _ _ hit] at hi
+  exact h i tk hI hi
+
+theorem allMarked_endTask {I : Nat → Prop} {s : St} (h : MarkedOn I s) (c : Ctx) (obs : List Obs) (r : TaskRes) :
+    MarkedOn I (endTask c s obs r).1 ∧ (endTask c s obs r).1.tasks.length = s.tasks.length ∧
+    (∀ o ∈ (endTask c s obs r).2, o ∈ obs ∨ o.isEnding = true) := by
+  unfold endTask
+  split
+  · exact ⟨h, rfl, fun o ho => Or.inl ho⟩
+  · refine ⟨allMarked_setTask_marked h _ _ (by simp [Task.marked, Task.isDone]), by simp, ?_⟩
+    intro o ho
+    simp only [List.mem_append, List.mem_singleton] at ho
+    rcases ho with ho | rfl
+    · exact Or.inl ho
+    · exact Or.inr rfl
+
+theorem len_unwindFrames (P : Program) : ∀ (fs : List Frame) (s : St), (unwindFrames P s fs).tasks.length = s.tasks.length := by
+  intro fs
+  induction fs with
+  | nil => intro s; rfl
+  | cons f fs ih =>
+    intro s
+    cases f <;> simp only [unwindFrames, ih]
+    split
+    · rfl
+    · simp only [nodeFinally]
+      split
+      · simp
+      · split <;> simp
+
+theorem allMarked_cancelTasks {I : Nat → Prop} {s : St} (h : MarkedOn I s) (ts : List Nat) :
+    MarkedOn I (cancelTasks s ts) := by
+  intro i tk hI hi
+  have hlt : i < s.tasks.length := by
+    have := getElem?_lt hi; simpa using this
+  obtain ⟨tk', h1, h2⟩ := marked_cancelTasks ts s i s.tasks[i] (by simp [hlt]) (Or.inr (h i _ hI (by simp [hlt])))
+  rw [hi] at h1; cases h1; exact h2
+
+/-- **after the end** (all programs): in a state in which every task is finished or cancel-marked — the state
+`manager.run`'s cleanup leaves behind — every further step keeps it so, creates no task, and reports nothing but task
+endings: no node body, event callback, artifact save, default, retry sleep, new DAG or new task is started -/
+theorem markedOn_step (P : Program) (I : Nat → Prop) (s : St) (h : MarkedOn I s) (ch : Choice) (out : Out)
+    (hs : step P s ch = some out) (hI : ∀ t ord pick, ch = .run t ord pick → I t) :
+    MarkedOn I out.1 ∧ out.1.tasks.length = s.tasks.length ∧ ∀ o ∈ out.2, o.isEnding = true := by
+  cases ch with
+  | gate n inv att =>
+    simp only [step] at hs
+    split at hs
+    · cases hs
+    · obtain rfl := Option.some.inj hs
+      refine ⟨?_, by simp, by simp⟩
+      apply allMarked_of_map h
+      intro i
+      apply marked_map
+      intro tk
+      unfold gateDone
+      split
+      · split
+        · simp [Task.marked, Task.isDone, *]
+        · rfl
+      · rfl
+  | timer t =>
+    simp only [step] at hs
+    split at hs
+    · next tk htk =>
+      split at hs
+      · next hst =>
+        obtain rfl := Option.some.inj hs
+        refine ⟨?_, by simp, by simp⟩
+        by_cases hIt : I t
+        · refine allMarked_setTask_marked h _ _ ?_
+          have := h t tk hIt htk
+          simp only [Task.marked, Task.isDone, hst, Bool.false_or] at this
+          simp [Task.marked, Task.isDone, this]
+        · exact markedOn_setTask_outside h _ _ hIt
+      · cases hs
+    · cases hs
+  | cancelCaller =>
+    simp only [step] at hs
+    obtain rfl := Option.some.inj hs
+    refine ⟨?_, by simp, by simp⟩
+    have := allMarked_cancelTasks h [0]
+    simpa [cancelTasks] using this
+  | run t ord pick =>
+    simp only [step, stepTask] at hs
+    split at hs
+    · cases hs
+    · next tk htk =>
+      split at hs
+      · next rv hst =>
+        have hm := h t tk (hI t ord pick rfl) htk
+        simp only [Task.marked, Task.isDone, hst, Bool.false_or] at hm
+        simp only [hm, if_true] at hs
+        obtain rfl := Option.some.inj hs
+        -- the pending cancellation is delivered
+        unfold deliverCancel
+        have caller : ∀ (s0 : St), MarkedOn I s0 → s0.tasks.length = s.tasks.length →
+            MarkedOn I ((endTask { P := P, t := t, ord := ord, pick := pick } s0 [.returned .cancelled] .cancelled).1.setOutcome .cancelled) ∧
+            ((endTask { P := P, t := t, ord := ord, pick := pick } s0 [.returned .cancelled] .cancelled).1.setOutcome .cancelled).tasks.length = s.tasks.length ∧
+            ∀ o ∈ (endTask { P := P, t := t, ord := ord, pick := pick } s0 [.returned .cancelled] .cancelled).2, o.isEnding = true := by
+          intro s0 h0 hl
+          obtain ⟨a, b, c⟩ := allMarked_endTask h0 { P := P, t := t, ord := ord, pick := pick } [.returned .cancelled] .cancelled
+          refine ⟨a, by simp only [St.setOutcome]; rw [b, hl], ?_⟩
+          intro o ho
+          rcases c o ho with h1 | h1
+          · simp at h1; subst h1; rfl
+          · exact h1
+        split
+        · exact caller s h rfl
+        · exact caller s h rfl
+        · exact caller _ (allMarked_cancelTasks h _) (by simp)
+        · exact caller s h rfl
+        · simp only [raiseOut]
+          have hu : MarkedOn I (unwindFrames P s tk.frames) :=
+            allMarked_of_map h (fun i => C13_marks_are_stable P s tk.frames i)
+          obtain ⟨a, b, c⟩ := allMarked_endTask hu { P := P, t := t, ord := ord, pick := pick } [] .cancelled
+          refine ⟨a, by rw [b, len_unwindFrames], ?_⟩
+          intro o ho
+          rcases c o ho with h1 | h1
+          · simp at h1
+          · exact h1
+      · cases hs
+
+/-- the same for all tasks -/
+theorem allMarked_step (P : Program) (s : St) (h : AllMarked s) (ch : Choice) (out : Out)
+    (hs : step P s ch = some out) :
+    AllMarked out.1 ∧ out.1.tasks.length = s.tasks.length ∧ ∀ o ∈ out.2, o.isEnding = true :=
+  markedOn_step P (fun _ => True) s h ch out hs (fun _ _ _ _ => trivial)
+
+/-- run a list of choices, collecting the observations -/
+def runObs (P : Program) : St → List Choice → Option (St × List Obs)
+  | s, [] => some (s, [])
+  | s, c :: cs => match step P s c with
+    | some (s', obs) => (runObs P s' cs).map (fun r => (r.1, obs ++ r.2))
+    | none => none
+
+theorem allMarked_run (P : Program) : ∀ (cs : List Choice) (s s' : St) (obs : List Obs), AllMarked s →
+    runObs P s cs = some (s', obs) →
+    AllMarked s' ∧ s'.tasks.length = s.tasks.length ∧ ∀ o ∈ obs, o.isEnding = true
+  | [], s, s', obs, h, hr => by
+    simp only [runObs, Option.some.injEq, Prod.mk.injEq] at hr
+    obtain ⟨rfl, rfl⟩ := hr
+    exact ⟨h, rfl, by simp⟩
+  | c :: cs, s, s', obs, h, hr => by
+    simp only [runObs] at hr
+    split at hr
+    · next s1 obs1 hs =>
+      obtain ⟨a, b, d⟩ := allMarked_step P s h c (s1, obs1) hs
+      cases hr2 : runObs P s1 cs with
+      | none => simp [hr2] at hr
+      | some r =>
+        simp only [hr2, Option.map_some, Option.some.injEq, Prod.mk.injEq] at hr
+        obtain ⟨rfl, rfl⟩ := hr
+        obtain ⟨a', b', d'⟩ := allMarked_run P cs s1 r.1 r.2 a (by rw [hr2])
+        refine ⟨a', by rw [b', b], ?_⟩
+        intro o ho
+        rcases List.mem_append.mp ho with h1 | h1
+        · exact d o h1
+        · exact d' o h1
+    · cases hr
+
+
+theorem len_mgrFinish (c : Ctx) (s : St) (obs : List Obs) : (mgrFinish c s obs).1.tasks.length = s.tasks.length := by
+  unfold mgrFinish
+  simp only []
+  have hr : ∀ s' obs' o', (mgrReturn c s' obs' o').1.tasks.length = s'.tasks.length := by
+    intro s' obs' o'; simp only [mgrReturn, St.setOutcome, endTask]; split <;> simp
+  have hc : ∀ s' obs' o', (mgrComplete c s' obs' o').1.tasks.length = s'.tasks.length := by
+    intro s' obs' o'
+    unfold mgrComplete
+    split
+    · exact hr _ _ _
+    · unfold cbCall
+      split
+      · exact hr _ _ _
+      · unfold cbThen
+        split
+        · exact hr _ _ _
+        · simp only [yieldNow]; split <;> simp
+  rw [hc]; simp
+
+/-- **when `manager.run` leaves** (value or error): every task other than the caller's is finished or cancel-marked in
+the resulting state — the precondition of `markedOn_step` -/
+theorem C13_after_cleanup_others_marked (c : Ctx) (s : St) (obs : List Obs) :
+    MarkedOn (fun i => i ≠ c.t) (mgrFinish c s obs).1 := by
+  intro i tk hne hi
+  have hlt : i < s.tasks.length := by
+    have := getElem?_lt hi
+    rw [len_mgrFinish] at this; exact this
+  obtain ⟨tk', h1, h2⟩ := C13_finish_marks_every_task c s obs i s.tasks[i] (by simp [hlt]) hne
+  rw [hi] at h1; cases h1; exact h2
+
+/-- **from then on** (all programs): whatever the other tasks, the outstanding bodies, timers and the canceller do next,
+no task is created and nothing but task endings is observed; the caller's own remaining sections are the return from
+`on_pipeline_complete` -/
+theorem C13_after_cleanup_nothing_starts (P : Program) (t : Nat) (s : St) (h : MarkedOn (fun i => i ≠ t) s)
+    (ch : Choice) (out : Out) (hs : step P s ch = some out) (hne : ∀ ord pick, ch ≠ .run t ord pick) :
+    MarkedOn (fun i => i ≠ t) out.1 ∧ out.1.tasks.length = s.tasks.length ∧ ∀ o ∈ out.2, o.isEnding = true :=
+  markedOn_step P _ s h ch out hs (fun t' ord pick he hte => hne ord pick (by rw [he, hte]))
+
+/-- **once the caller's task has ended too**, any continuation whatsoever (any number of steps) observes only task
+endings and creates nothing -/
+theorem C13_after_return_nothing_ever_starts (P : Program) (cs : List Choice) (s s' : St) (obs : List Obs)
+    (h : AllMarked s) (hr : runObs P s cs = some (s', obs)) :
+    AllMarked s' ∧ s'.tasks.length = s.tasks.length ∧ ∀ o ∈ obs, o.isEnding = true :=
+  allMarked_run P cs s s' obs h hr
 
 end MLPE.Eng
